@@ -178,7 +178,11 @@ def split_levels(argv_tokens):
     return levels, sels
 
 
-def expect(node, levels, sels, doc, env, use_env=True, dsec=None):
+UNSPEC = "unspecified"
+
+
+def expect(node, levels, sels, doc, env, use_env=True, dsec=None, doc_low=False):
+    """doc_low: the document arrives as the config given in the environment, which the individual variables override"""
     res = {}
     here = dict(levels[0]) if levels else {}
     for name, default in node["opts"]:
@@ -188,9 +192,15 @@ def expect(node, levels, sels, doc, env, use_env=True, dsec=None):
         if dsec and name in dsec:
             v = dsec[name]
         ev = env.get(env_prefix(node["path"]) + name.upper())
+        if doc_low and isinstance(doc, dict) and name in doc:
+            v = doc[name]
+            if use_env and ev is not None and node["path"]:
+                # a subcommand option given both by the environment's config and by its own variable: which of the two the
+                # subcommand's parser ranks higher is C04's question (and a known finding there), not judged here
+                return UNSPEC
         if use_env and ev is not None:
             v = int(ev)
-        if isinstance(doc, dict) and name in doc:
+        if not doc_low and isinstance(doc, dict) and name in doc:
             v = doc[name]
         if name in here:
             v = here[name]
@@ -202,6 +212,8 @@ def expect(node, levels, sels, doc, env, use_env=True, dsec=None):
             choice = sels[0]
         elif doc.get("subcommand"):
             choice = doc["subcommand"]
+            if doc_low and use_env and env.get(env_prefix(node["path"]) + "SUBCOMMAND") not in (None, choice):
+                return UNSPEC  # named differently by the environment's config and by its variable: the statement does not rank them
         elif use_env and env.get(env_prefix(node["path"]) + "SUBCOMMAND") in node["subs"]:
             choice = env[env_prefix(node["path"]) + "SUBCOMMAND"]
         else:
@@ -214,9 +226,9 @@ def expect(node, levels, sels, doc, env, use_env=True, dsec=None):
             res["subcommand"] = None
             return res
         res["subcommand"] = choice
-        sub = expect(node["subs"][choice], levels[1:] if sels else [[]], sels[1:], doc.get(choice, {}), env, use_env, node["dsec"].get(choice))
-        if sub is FAIL:
-            return FAIL
+        sub = expect(node["subs"][choice], levels[1:] if sels else [[]], sels[1:], doc.get(choice, {}), env, use_env, node["dsec"].get(choice), doc_low)
+        if sub is FAIL or sub is UNSPEC:
+            return sub
         res[choice] = sub
     return res
 
@@ -276,7 +288,7 @@ def case(ctx, i, rng):
     p = o.value
     tokens, doc, env = gen_inputs(rng, tree)
     levels, sels = split_levels(tokens)
-    channel = rng.choice(["argv", "argv+cfg", "object", "string", "argv+cfgfile", "argv+2cfg"])
+    channel = rng.choice(["argv", "argv+cfg", "object", "string", "argv+cfgfile", "argv+2cfg", "argv+envcfg"])
     if channel in ("object", "string") and (sels or any(levels)):
         # these channels carry no command line: fold the argv part away
         levels, sels = [[]], []
@@ -290,9 +302,19 @@ def case(ctx, i, rng):
     if env_kw_off:
         use_env = False
         ctx.count("st.env.default-on-but-call-says-env=False")
-    exp = expect(tree, levels, sels, doc_used, env, use_env)
+    if channel == "argv+envcfg":
+        if not use_env or not doc or env_kw_off:
+            channel = "argv+cfg"
+        else:
+            env = dict(env, APP_CFG=json.dumps(doc))  # the document is the config given in the environment
+    exp = expect(tree, levels, sels, doc_used, env, use_env, doc_low=channel == "argv+envcfg")
+    if exp is UNSPEC:
+        ctx.count("cases_skipped_choice_named_differently_by_env_config_and_env_variable")
+        return
     with environ(env):
         if channel == "argv":
+            o = call(p.parse_args, render_argv(levels, sels, []), **kw)
+        elif channel == "argv+envcfg":
             o = call(p.parse_args, render_argv(levels, sels, []), **kw)
         elif channel == "argv+cfg":
             o = call(p.parse_args, render_argv(levels, sels, [f"--cfg={json.dumps(doc)}"] if doc else []), **kw)
@@ -357,7 +379,7 @@ def _has_dsec(node, sels, exp):
 
 
 def chan_family(ch):
-    return "argv" if ch == "argv" else ("object" if ch in ("object", "string") else "argv+cfg")
+    return "argv" if ch == "argv" else ("object" if ch in ("object", "string") else ("argv+envcfg" if ch == "argv+envcfg" else "argv+cfg"))
 
 
 def _cfg_dests(node, prefix=""):
